@@ -236,6 +236,9 @@ func saveConnectedPeersAsTemporaryBootstrap(ctx context.Context, host host.Host,
 
 	// Choose peers to save and filter out the ones that are already bootstrap nodes.
 	for _, p := range connectedPeers {
+		if len(backupPeers) >= cfg.MaxBackupBootstrapSize {
+			break
+		}
 		if _, found := foundPeers[p]; found {
 			continue
 		}
@@ -248,10 +251,6 @@ func saveConnectedPeersAsTemporaryBootstrap(ctx context.Context, host host.Host,
 		// Only include peers with direct addresses (filter out relay-only peers)
 		if hasDirectAddresses(peerInfo) {
 			backupPeers = append(backupPeers, peerInfo)
-		}
-
-		if len(backupPeers) >= cfg.MaxBackupBootstrapSize {
-			break
 		}
 	}
 
